@@ -531,14 +531,21 @@ inductive ProbeAction where
   | idle | send | expire
   deriving Repr, DecidableEq, Inhabited
 
+/-- `Probe::expired` (repair of D31): the probe is 750 ms old AND its three queries have been
+    sent - `next_send` has moved on to the end of the schedule -/
+def Probe.expired (p : Probe) (now : Nat) : Bool :=
+  decide (now ≥ p.start + 750) && decide (p.next ≥ p.start + 750)
+
 /-- what `check_probing` does with one probe at `now` -/
 def Probe.action (p : Probe) (now : Nat) : ProbeAction :=
-  if now ≥ p.next then (if now ≥ p.start + 750 then .expire else .send) else .idle
+  if now ≥ p.next then (if p.expired now then .expire else .send) else .idle
 
-/-- the probe after `check_probing` (an expired probe is removed later) -/
+/-- the probe after `check_probing` (an expired probe is removed later).  `update_next_send`
+    (repair of D31): a query that goes out later than planned moves the rest of the schedule -
+    `start_time` - by the same time. -/
 def Probe.step (p : Probe) (now : Nat) : Probe :=
   match p.action now with
-  | .send => { p with next := now + 250 }
+  | .send => { p with start := p.start + (now - p.next), next := now + 250 }
   | _ => p
 
 structure Probing where
